@@ -152,6 +152,9 @@ func genC16(x *Ctx) *c16Scen {
 			r := &c16Req{ID: id}
 			r.Codec = []string{"json", "xml"}[tp.G(2)]
 			r.CTForm = tp.G(5)
+			if tp.Chance(150) {
+				r.CTForm = 5 + tp.G(4) // sloppy parameters, as real clients send them
+			}
 			r.Coding = []string{"gzip", "", "deflate", "gzip"}[tp.G(4)]
 			r.Pretty = tp.Bool()
 			r.Size = tp.G(maxSize + 1)
@@ -312,6 +315,14 @@ func runC16(x *Ctx) {
 					hdr["Content-Type"] = r.ct + "; charset=utf-8"
 				case 2:
 					hdr["Content-Type"] = r.ct + ";charset=UTF-8; boundary=x"
+				case 5:
+					hdr["Content-Type"] = r.ct + "; charset="
+				case 6:
+					hdr["Content-Type"] = r.ct + "; charset"
+				case 7:
+					hdr["Content-Type"] = r.ct + "; charset=utf-8; profile=http://example.org/p q"
+				case 8:
+					hdr["Content-Type"] = r.ct + "; charset=utf-8, " + r.ct + "; charset=utf-8" // a duplicated header folded by a proxy
 				case 4:
 					hdr["Content-Type"] = r.ct + " ; charset=utf-8" // optional whitespace before the parameter
 				case 3:
